@@ -88,8 +88,12 @@ CONTENTS = {
     "err-two-plain-backoff": [("error", dict(_ERR)), ("error", dict(_ERR, backoff="3600"))],
     "err-two-backoff-plain": [("error", dict(_ERR, backoff="60")), ("error", dict(_ERR))],
     "err-none": [],                                                             # no <error> child at all
+    # the same reply without a `from` attribute (the server's own replies often carry none)
+    "err-no-from": [("error", {"code": "404", "text": "item-not-found"})],
+    "res-no-from": [],
 }
-ERROR_CONTENTS = sorted(CONTENTS)
+NO_FROM = ("err-no-from", "res-no-from")
+ERROR_CONTENTS = sorted(k for k in CONTENTS if k != "res-no-from")
 # result replies to a contact sync, written the other ways the <sync> child can be: a chunk that is not flagged as
 # the last one, no flag at all, a later index (each parsable by the reply-entity parser).  They REPLACE the default result children.
 _USER = ("in", {}, [("user", {"jid": JID}, b"+4915100000001")])
@@ -516,6 +520,8 @@ class Rig(object):
                 children = children + content_children(content)
         elif content:
             children = content_children(content)
+        if content in NO_FROM:
+            attrs.pop("from", None)
         if shape == "sping":
             attrs["xmlns"] = "urn:xmpp:ping"
         elif shape == "sync" and typ != "result":
